@@ -148,3 +148,12 @@ func SafeVerify(q any, o *verify.Options) (err error) {
 	defer Recover(&err)
 	return verify.TdxQuote(q, o)
 }
+
+// SetLogLevel sets the verbosity of the library's (process-wide) logger; its output stays discarded.
+// Sections that use it run all their cases at one level and restore level 0 afterwards.
+func SetLogLevel(n int) { logLevel = n; logger.SetLevel(logger.Level(n)) }
+
+// LogLevel is the level last set through SetLogLevel.
+func LogLevel() int { return logLevel }
+
+var logLevel int
